@@ -369,6 +369,28 @@ theorem lenfield_exact (C : Codec E) (L : Layout) (r : Rec E) (bs tl : Bytes)
   cases hef
   simp only [hdrLen, List.append_assoc, hdf (t ++ tl), lenOf_of_hasLen _ _ hl, hlen]
 
+/-- the fixed values a successful `decode` returns are those `decFixed` reads -/
+theorem decode_vals (C : Codec E) (L : Layout) (avail : Option Nat) (bs tl : Bytes) (r : Rec E)
+    (h : decode C L avail bs = some (r, tl)) : ∃ l rest, decFixed L.fixed bs = some (r.vals, l, rest) := by
+  unfold decode at h
+  cases hdf : decFixed L.fixed bs with
+  | none => simp [hdf] at h
+  | some p =>
+    obtain ⟨vs', l, rest⟩ := p
+    simp only [hdf] at h
+    refine ⟨l, rest, ?_⟩
+    split at h
+    · cases h; rfl
+    · split at h
+      · cases h
+      · split at h
+        · cases h
+        · split at h
+          · cases h
+          · simp only [Option.map_eq_some_iff, Prod.mk.injEq] at h
+            obtain ⟨_, _, hx, _⟩ := h
+            rw [← hx]
+
 /-- reading the same bytes with the tail taken as raw bytes (`_read(raw, offset, length - K)`) instead of as a list gives
     the same fixed values and leaves the same rest -/
 theorem decode_as_rest (C : Codec E) (F : List Field) (nm lnm fam : String) (avail : Option Nat) (bs tl : Bytes)
